@@ -6,7 +6,7 @@ from props import common
 SPEC = vlib.os.path.join(vlib.VERIF, "specs", "Relay")
 # real steps that happen by themselves as soon as they can and whose effect other steps can see: in a replayable
 # behaviour they are taken immediately when enabled
-URGENT = {"RecvLoopEnd", "DlTimeout", "Cleanup", "UpClosed", "PackRes"}
+URGENT = {"RecvLoopEnd", "DlTimeout", "Cleanup", "UpClosed", "PackRes", "InitFail"}
 
 BASE = dict(Sess='{"s1"}', Targets='{"a","ip","rej"}', Domains='{"a"}', Rejected='{"rej"}', ChanCap=2, MaxSend=2, MaxReply=1, MaxTimer=0,
             SharedPacker="FALSE", RearmGuard="TRUE", EMIT="", PROPS="")
